@@ -152,22 +152,28 @@ def search (sys : Sys σ) (want : String) : Nat → List (List Ev) → σ → Li
 
 def fmtFinal (ev : List (Nat × Nat)) (len size : String) : String := s!"{C08.fmtEv ev}|{len}|{size}"
 
-def modelSys (limit : Int) : Sys Cache × Cache :=
-  ({ step := Model.Cache.step C05.cfg (fun _ => 1),
+/-- the size function of a workload: constant 1, or — when the second token of the `run` line carries the
+flag `v` (`4v`, `4tv`) — `value % 3 + 1`, so that refused `Put`s (size > limit), `Put`s evicting several entries
+and `Size ≠ Len` occur under concurrency.  Both are `≥ 1`; with `limit ≤ 4` at most 4 entries are ever live,
+which is the hypothesis of `C08_lru_small_cache` (no F2 excuse is needed in this stream). -/
+def sizeOfFor (varSize : Bool) (v : Nat) : Int := if varSize then ((v % 3 + 1 : Nat) : Int) else 1
+
+def modelSys (sizeOf : Nat → Int) (limit : Int) : Sys Cache × Cache :=
+  ({ step := Model.Cache.step C05.cfg sizeOf,
      key := fun c => toString (c.store.h.data.map fun e => (e.lastAccess, e.key, e.value)) ++ toString c.size ++ toString c.evicted,
      final := fun c => fmtFinal c.evicted.reverse (toString c.count) (toString c.size) },
    { limit := limit })
 
-def refSys (limit : Int) : Sys LruRef.R × LruRef.R :=
-  ({ step := LruRef.step (fun _ => 1),
+def refSys (sizeOf : Nat → Int) (limit : Int) : Sys LruRef.R × LruRef.R :=
+  ({ step := LruRef.step sizeOf,
      key := fun r => toString r.items ++ toString r.evicted,
-     final := fun r => fmtFinal r.evicted.reverse (toString r.items.length) (toString (LruRef.total (fun _ => 1) r.items)) },
+     final := fun r => fmtFinal r.evicted.reverse (toString r.items.length) (toString (LruRef.total sizeOf r.items)) },
    { limit := limit })
 
 def step (_ : Unit) (toks : List String) (impl : String) : Unit × String × String :=
   match toks with
   | ["reset"] => ((), "-", "ok")
-  | "run" :: limit :: _procs :: prog =>
+  | "run" :: limit :: procs :: prog =>
     match limit.toNat?, wellFormed prog impl with
     | none, _ => ((), "bad-op", "bad bad-op")
     | _, .error why => ((), s!"malformed-history {why}", s!"bad malformed-history {why}")
@@ -177,8 +183,9 @@ def step (_ : Unit) (toks : List String) (impl : String) : Unit × String × Str
       -- the final observation as printed by the implementation (raw text: nothing in it is dropped)
       let want := s!"{field impl "ev"}|{field impl "len"}|{field impl "size"}"
       let n := evs.length + 1
-      let (msys, m0) := modelSys limit
-      let (rsys, r0) := refSys limit
+      let sz := sizeOfFor (procs.contains 'v')
+      let (msys, m0) := modelSys sz limit
+      let (rsys, r0) := refSys sz limit
       let okM := (search msys want n ths m0 []).1
       let okR := (search rsys want n ths r0 []).1
       ((), if okM then impl else "not-linearizable-wrt-cache-model",
